@@ -215,6 +215,62 @@ func c02Body() func(h []dsim.Rec) {
 		dsim.Failf("crc-function", "x25 of %s = %04x, CRC-16/MCRF4XX = %04x", hexs(data), h.Sum16(), ref.CRC(data))
 	}
 	dsim.Record("flips", "", nil, int64(flips))
+
+	// (e) the gate is not bypassed by authentication: a reader that also holds an incoming key
+	// delivers the frame signed by the key holder, and refuses the same frame when its checksum is
+	// wrong although the signature (computed over the bytes as sent, checksum included) is valid —
+	// a sender with the key and a wrong CRC_EXTRA (another dialect version) produces exactly that.
+	{
+		f, d, vals := genDialectFrame(true)
+		key, link, ts := genKey(), genByte(), genUint(48)
+		kcfg := readerCfg{drw: cfg.drw, key: frame.NewV2Key(key[:])}
+		signValid(f, d, key, link, ts)
+		good := f.Encode()
+		res, ok := readStream(good, kcfg)
+		if !ok {
+			return nil
+		}
+		if len(res) != 2 || res[0].kind != 0 {
+			dsim.Failf("gate-complete", "keyed reader: a validly signed %s frame with a correct checksum was not delivered: %v; bytes %s", d.Name, describeAll(res), hexs(good))
+			return nil
+		}
+		if _, raw := res[0].fr.GetMessage().(*message.MessageRaw); raw {
+			dsim.Failf("gate-complete", "keyed reader: a valid %s frame was delivered undecoded", d.Name)
+			return nil
+		}
+		if got := d.Canon(hd.ToValues(res[0].fr.GetMessage()), true); !ref.EqualValues(got, vals) {
+			dsim.Failf("gate-complete", "keyed reader: %s decoded to %v, sent %v", d.Name, got, vals)
+			return nil
+		}
+		switch dsim.Choose(3) {
+		case 0:
+			f.Checksum ^= uint16(1 + dsim.Choose(0xFFFF))
+		case 1:
+			f.Checksum = ref.CRC(good[1 : 10+len(f.Payload)]) // CRC_EXTRA omitted
+		case 2:
+			f.Checksum = f.ComputeChecksum(d.CRCExtra() ^ byte(1+dsim.Choose(255)))
+		}
+		sign(f, key, link, ts)
+		bad := f.Encode()
+		count("fault:signed-over-wrong-checksum")
+		res, ok = readStream(bad, kcfg)
+		if !ok {
+			return nil
+		}
+		if f.ComputeChecksum(d.CRCExtra()) != f.Checksum {
+			for _, r := range res {
+				if r.kind == 0 {
+					dsim.Failf("gate-complete", "keyed reader: a %s frame with a wrong checksum (carried %04x, reference %04x) and a valid signature was delivered; bytes %s",
+						d.Name, f.Checksum, f.ComputeChecksum(d.CRCExtra()), hexs(bad))
+					return nil
+				}
+			}
+			if len(res) < 2 || res[0].kind != 1 || res[0].to != len(bad) {
+				dsim.Failf("gate-complete", "keyed reader: signed frame with a wrong checksum not rejected as exactly one parse error: %v", describeAll(res))
+				return nil
+			}
+		}
+	}
 	return nil
 }
 
